@@ -15,6 +15,7 @@ Inductive outcome :=
 | OUnknown                         (* outside the modelled fragment: no claim at all *)
 | OCallModeError                   (* ProbLog errors ... *)
 | OArithError                      (*   ArithmeticError / InstantiationError (GroundingError) *)
+| OOtherPLError                    (*   another ProbLogError subclass (e.g. OccursCheck out of unify_value): only ever observed *)
 | OUnifyError                      (* UnifyError: the engine turns it into failure *)
 | OStuck (e : string).             (* any other Python exception: a crash *)
 
@@ -390,7 +391,7 @@ Definition body_cmp (pyname : string) (args : list pterm) : outcome :=
             | AV w =>
                 match v, w with
                 | VI x, VI y => OBool (f x y)
-                | VS _, VI _ | VI _, VS _ =>
+                | VS _, (VI _ | VF) | (VI _ | VF), VS _ =>
                     if is_ordering pyname then (if mem pyname cmp_type_guarded then OArithError else OStuck "TypeError") else OAny
                 | _, _ => OAny
                 end
@@ -446,7 +447,7 @@ Definition mres_eqb (a b : mres) : bool :=
 Definition outcome_agrees (model observed : outcome) : bool :=
   match model, observed with
   | OUnknown, _ => true
-  | OAny, (ORes _ | OBool _) => true
+  | OAny, (ORes _ | OBool _ | OOtherPLError) => true
   | ORes a, ORes b => list_eqb (list_eqb pterm_eqb) a b
   | OBool a, OBool b => Bool.eqb a b
   | OBool false, ORes [] => true
